@@ -136,17 +136,13 @@ class ReadDeviceInformationResponse(ModbusResponse):
         self.space_left = None
 
     def _encode_object(self, object_id, data):
+        if not isinstance(data, bytes):
+            data = data.encode()
         self.space_left -= (2 + len(data))
         if self.space_left <= 0:
             raise _OutOfSpaceException(object_id)
         encoded_obj = struct.pack('>BB', object_id, len(data))
-        if IS_PYTHON3:
-            if isinstance(data, bytes):
-                encoded_obj += data
-            else:
-                encoded_obj += data.encode()
-        else:
-            encoded_obj += data.encode()
+        encoded_obj += data
         self.number_of_objects += 1
         return encoded_obj
 
